@@ -4,7 +4,9 @@
      Route.current / apply / Apply    -- "::/0"   (C15, code as repaired by a252649)
    Executable definitions only; lemmas live in Proofs/Wildcard*.v.
    The operating system's answer (address list, route dump, or failure = None) is an input. *)
-From CR Require Export Model.Types Base.IP Model.Lifetimes.
+From CR Require Export Model.Types.
+From CR Require Export Base.IP.
+From CR Require Export Model.Lifetimes.
 Local Open Scope N_scope.
 
 (* ---- net/netip address classes.  Since go1.22 IsPrivate / IsGlobalUnicast / IsLinkLocalUnicast /
